@@ -101,6 +101,9 @@ def vsnap(x, _path=()):
         return ("enum", type(x).__name__, x.name)
     if isinstance(x, (types.FunctionType, types.BuiltinFunctionType, types.MethodType)):
         return ("func", getattr(x, "__qualname__", repr(x)))
+    for base in (str, bytes, float, int):       # an instance of a sub-type of a scalar type: its type name and its value
+        if isinstance(x, base):
+            return (t.__name__, base(x))
     oid = id(x)
     if oid in _path:
         return ("cycle", len(_path) - _path.index(oid))
